@@ -17,7 +17,7 @@ type c17Case struct {
 
 func CheckC17(l *Lab, verifDir string) int {
 	rep := NewReport("C17", l.Tier, l.Seed, "exploration", verifDir)
-	rep.Rule = "real handshakes against the real binary in all four server settings {cookie auth, smart card}: client capability values (quick: 0..1023, every one- and two-bit value, 2000 PRNG values; thorough: all 65536) with version bytes cycling, plus version-pair sweeps at four capability values; oracle ok(server,client) := both empty or share a bit; success must advertise exactly the server bits and echo the version bytes and the next step must be answered; failure must answer capability-mismatch and end the tunnel. non-trivial = a handshake response was received; distinct = server setting x client value x version pair x transport"
+	rep.Rule = "real handshakes against the real binary in all four server settings {cookie auth, smart card} with OpenID for cookie auth, plus cookie auth (with / without smart card) behind NTLM without OpenID: client capability values (quick: 0..1023, every one- and two-bit value, 2000 PRNG values; thorough: all 65536) with version bytes cycling, plus version-pair sweeps at four capability values; oracle ok(server,client) := both empty or share a bit; success must advertise exactly the server bits and echo the version bytes and the next step must be answered; failure must answer capability-mismatch and end the tunnel. non-trivial = a handshake response was received; distinct = server setting x client value x version pair x transport"
 	rep.SetExhaustive(!l.Quick())
 	rnd := NewRand(l.Seed, "c17")
 	var values []uint16
@@ -48,11 +48,13 @@ func CheckC17(l *Lab, verifDir string) int {
 	}
 	versions := [][2]byte{{1, 0}, {0, 0}, {255, 255}, {1, 1}, {2, 0}, {0, 1}, {127, 128}, {16, 32}, {1, 255}, {255, 0}, {3, 7}, {9, 9}, {64, 2}, {200, 100}, {5, 0}, {0, 255}}
 	var idp *IdP
-	for setting := 0; setting < 4; setting++ {
-		paa := setting&2 != 0
+	for setting := 0; setting < 6; setting++ {
+		paa := setting&2 != 0 || setting >= 4
 		sc := setting&1 != 0
 		kind := "ntlm"
-		if paa {
+		// settings 4 and 5: cookie authentication required although the HTTP layer authenticates with
+		// NTLM and OpenID is not enabled (tokenauth is a capability setting of its own)
+		if paa && setting < 4 {
 			kind = "openid"
 			if idp == nil {
 				var err error
@@ -63,7 +65,12 @@ func CheckC17(l *Lab, verifDir string) int {
 				defer idp.Close()
 			}
 		}
-		f, err := l.NewFixture(FixtureOpts{Kind: kind, IdP: idp, Mutate: func(c *GWConfig) { c.SmartCardAuth = sc }})
+		f, err := l.NewFixture(FixtureOpts{Kind: kind, IdP: idp, Mutate: func(c *GWConfig) {
+			c.SmartCardAuth = sc
+			if setting >= 4 {
+				c.TokenAuth = BoolP(true)
+			}
+		}})
 		if err != nil {
 			rep.Inconclusive("fixture: " + err.Error())
 			continue
